@@ -70,7 +70,7 @@ structure FreqState (K : Type) where
   counter : Counter K
   /-- `count: int` — the number of texts seen -/
   count : Nat
-  deriving Repr
+  deriving Repr, DecidableEq
 
 /-- `math_utils.safe_divide(value, count)` on two non-negative ints -/
 def safeDiv (a b : Nat) : Rat := if b = 0 then 0 else (a : Rat) / (b : Rat)
